@@ -75,6 +75,15 @@ func c06Mega(c *sim.Ctx) *sim.Violation {
 	n := k << 20
 	body := make([]byte, n)
 	copy(body, []byte{0, 1, 't', 0})
+	bad := ""
+	switch (c.Run + c.Seed) % 3 {
+	case 1:
+		copy(body, []byte{0, 1, 't', 2, 0xFF, 0x00}) // an undefined property identifier right at the start
+		bad = "undefined property identifier"
+	case 2:
+		copy(body, []byte{0, 1, 't', 2, 0x01, 0x02}) // payload format indicator 2
+		bad = "payload format indicator 2"
+	}
 	body[n-1] = 0x7E
 	frame := append(ref.AppendVarint([]byte{0x30}, uint32(n)), body...)
 	stream := append(append([]byte{}, frame...), 0xC0, 0x00)
@@ -83,8 +92,11 @@ func c06Mega(c *sim.Ctx) *sim.Violation {
 	if r.Delivered != len(frame) {
 		return sim.V("C06/PUBLISH/ok/under-or-over-read", "PUBLISH with remaining length %d (%d MiB exactly): the call drew %d bytes, the frame has %d; result %s", n, k, r.Delivered, len(frame), oneOutcome(got))
 	}
-	if got.Kind != "packet" {
+	if got.Kind != "packet" && bad == "" {
 		return sim.V("C06/PUBLISH/mega/not-decoded", "PUBLISH with remaining length %d: %s", n, got)
+	}
+	if bad != "" {
+		c.Count("probe.content-malformed-frame-of-an-exact-multiple-of-1MiB(" + bad + ")")
 	}
 	next := ReadOne(r)
 	if next.Kind != "packet" || next.Type != ref.PingReq {
